@@ -93,9 +93,21 @@ func runC15(p *core.Prog, r *core.Report) {
 			return "", false
 		}})
 	}
-	r4 := r.Rule("C15.R4", "Shard.MarkGarbage: write-cache Delete only after metabase MarkGarbage returned nil", 1)
-	core.CheckEffects(p, r4, core.EffectRule{Fn: shardT + ".MarkGarbage", Min: 1,
-		Guards: []core.Guard{core.G("metabase-mark-ok", core.ErrNil, mbT+".MarkGarbage")}, Effect: core.CallTo(wcI + ".Delete")})
+	r4 := r.Rule("C15.R4", "marking is not removing: Shard.MarkGarbage and Shard.InhumeContainer change metadata only — no data is deleted from the write-cache or the blob storage while the mark can still be taken back (ReviveObject) and the metabase would list the object as available again; data goes only with the metadata, in deleteObjs (R3)", 2)
+	for _, name := range []string{shardT + ".MarkGarbage", shardT + ".InhumeContainer"} {
+		fn := p.Func(name)
+		if fn == nil {
+			r.Fatalf("C15.R4: %s not found", name)
+			continue
+		}
+		del := ""
+		for _, cs := range core.CallSites([]*ssa.Function{fn}, func(s core.Site) bool {
+			return s.Name == wcI+".Delete" || strings.HasSuffix(s.Name, "common.Storage).Delete") || strings.HasSuffix(s.Name, "fstree.FSTree).Delete")
+		}) {
+			del = p.InstrPos(cs.Call)
+		}
+		r4.Check(del == "", name+"#data-untouched", p.Pos(fn.Pos()), "no data store deletion", name+" deletes object data ("+del+") although it only marks: after the mark is taken back (ReviveObject before GC) the metabase lists the object as available and the only copy — an object not flushed from the write-cache yet — is gone")
+	}
 	r6 := r.Rule("C15.R6", "the data step itself cannot be caught half-done: every file-tree writer (blob storage and write-cache use it) makes the object visible under its final name only after the complete, successful data write (shared with C12.R1)", 5)
 	publishAfterCompleteWrite(p, r, r6)
 	r7 := r.Rule("C15.R7", "FSTree.PutBatch hands every element of the batch that has bytes to the writer or fails: no iteration of its loop over the batch ends without the element being appended to the written units, except for an element with no data — the write-cache deletes every object of a batch whose PutBatch returned nil (R2)", 1)
